@@ -5,6 +5,7 @@ import math
 import re
 import struct
 import common as C
+import gen_variant
 
 PROPERTIES = ["C07"]
 MANIFEST = {
@@ -61,7 +62,7 @@ MANIFEST = {
         "design_ref": "DESIGN.md 3/C07, docs/variant.md",
     }
 }
-PROPS = ["Nstd.Variant.Props"]
+PROPS = ["Nstd.Variant.Props", "Nstd.Variant.PropsGen"]
 LEAN_TARGETS = PROPS + ["drv_variant"]
 DRIVER = "drv_variant"
 NV = 6
@@ -756,6 +757,13 @@ ASSUMPTIONS = [
 ]
 
 
+def setup():
+    """tools/setup.py: regenerate lean/Nstd/Generated/Variant{Rep,Coerce}.lean before the Lean build"""
+    ok, msg = gen_variant.run()
+    if not ok:
+        print("gen_variant:", msg)
+
+
 def probe_self_append(ctx, harness):
     """finding `self-append` (outside the model's precondition): run the dedicated probes on the real code and
     compare with value semantics; reported through ctx.violation with a signature so that known_findings.json decides"""
@@ -815,7 +823,7 @@ def model_counters(ctx, hs, cap=12000):
 
 def check(ctx):
     ctx.assumptions += ASSUMPTIONS
-    proof_ok = C.proof_stage(ctx, PROPS, [DRIVER], leanchecker=(ctx.tier == "thorough"))
+    proof_ok = C.proof_stage(ctx, PROPS, [DRIVER], gen=gen_variant.gen, leanchecker=(ctx.tier == "thorough"))
     harness = C.build_harness(ctx, "variant", SOURCES)
     if harness is None or not C.driver_path(DRIVER).exists():
         return
@@ -873,6 +881,7 @@ def check(ctx):
 def replay(ctx, path):
     h = C.parse_replay(path)
     harness = C.build_harness(ctx, "variant", SOURCES)
+    gen_variant.run()
     C.lake_build([DRIVER])
     diffs = C.differential(ctx, harness, C.driver_path(DRIVER), [h], reference, line_eq)
     for d in diffs:
